@@ -475,6 +475,10 @@ pub fn compare_outcome(
     match (res, &want.out) {
         (Ok(e), Out::Event { kind, start, len: clen, name_len: nl }) => {
             let k = kind_of(e);
+            if mask & C16_FINDING_ONLY != 0 {
+                // twin obligation of the known finding: inputs are restricted to its region
+                ensure!(k == *kind, "C16: whitespace-only text trimmed to nothing is not emitted");
+            }
             ensure!(k == *kind, "C01: event kind is the one the grammar assigns");
             let content: &[u8] = e;
             ensure!(content.len() == *clen, "C01: event content has exactly the construct's length");
